@@ -4,6 +4,7 @@ import (
 	"encoding/json"
 	"fmt"
 	"os"
+	"path/filepath"
 	"sort"
 	"strconv"
 	"strings"
@@ -137,7 +138,7 @@ func main() {
 			fmt.Fprintf(os.Stderr, "unknown check %s\n", rec.Property)
 			os.Exit(64)
 		}
-		dir, _ := os.MkdirTemp("/verif/work", "replay-")
+		dir, _ := os.MkdirTemp(filepath.Join(verifRoot, "work"), "replay-")
 		defer os.RemoveAll(dir)
 		runWorkerMain(ck, rec.Tier, rec.Seed, []int{rec.Index}, "", dir, true)
 	default:
